@@ -23,8 +23,8 @@ def write_instance(d, S, C, prog, faults, abort):
     with open(os.path.join(d, "MC.tla"), "w") as f:
         f.write("---- MODULE MC ----\nEXTENDS BaneProtocol\nProgConst == %s\nFaultsConst == %s\n====\n" % (tla_seq(prog), fs))
     with open(os.path.join(d, "MC.cfg"), "w") as f:
-        f.write("SPECIFICATION Spec\nCONSTANTS\n S = %d\n C = %d\n Prog <- ProgConst\n Faults <- FaultsConst\n AbortOnFail = %s\n"
-                "INVARIANTS TypeOK NoBrokenWithoutFault FaultIsReported\n" % (S, C, "TRUE" if abort else "FALSE"))
+        f.write("SPECIFICATION Spec\nCONSTANTS\n S = %d\n C = %d\n Prog <- ProgConst\n Faults <- FaultsConst\n FailAction = \"%s\"\n"
+                "INVARIANTS TypeOK NoBrokenWithoutFault FaultIsReported\n" % (S, C, abort if isinstance(abort, str) else ("abort" if abort else "none")))
 
 
 def _tlc(d, extra, timeout=3600):
